@@ -3,6 +3,11 @@ package main
 import (
 	"encoding/json"
 	"fmt"
+	"io/ioutil"
+	"os"
+	"os/exec"
+	"path/filepath"
+	"strings"
 
 	dbm "github.com/tendermint/tm-db"
 
@@ -23,6 +28,7 @@ type appCase struct {
 	Seed     uint64
 	Prof     sim.Profile
 	Scenario func(w *sim.World) // nil: random walk
+	CrossProcess bool
 }
 
 func monitorsFor(prop string, seed uint64, idx *sim.TxIndex) []sim.Monitor {
@@ -99,6 +105,11 @@ func runCase(c *Ctx, prop string, ac appCase, nontrivialKeys []string) {
 	idx.Reset()
 	w := sim.NewWorld(ac.Seed, ac.Prof, idx)
 	w.Env.Monitors = monitorsFor(prop, ac.Seed, idx)
+	var dg *mon.Digest
+	if prop == "C01" && ac.CrossProcess {
+		dg = &mon.Digest{}
+		w.Env.Monitors = append(w.Env.Monitors, dg)
+	}
 	if osGetenv("VCHECK_TRACE") != "" {
 		w.Env.Monitors = append([]sim.Monitor{mon.Trace{}}, w.Env.Monitors...)
 	}
@@ -114,6 +125,9 @@ func runCase(c *Ctx, prop string, ac appCase, nontrivialKeys []string) {
 		w.Run()
 	}
 	foldEnv(c, prop, ac.ID, ac.Prof.Name, w.Env, nontrivialKeys)
+	if dg != nil {
+		crossProcess(c, ac.ID, w.Env, dg.Lines)
+	}
 }
 
 func foldEnv(c *Ctx, prop, caseID, profName string, e *sim.Env, nontrivialKeys []string) {
@@ -178,6 +192,76 @@ func replayHistory(prop string) func(c *Ctx, raw json.RawMessage) {
 		}
 		e.Replay(dbm.NewMemDB(), hr.Log)
 		foldEnv(c, prop, "replay", hr.Profile, e, nil)
+	}
+}
+
+// digestMain: a separate OS process replays a request log on a fresh instance and prints the digest lines.
+func digestMain(path string) {
+	bz, err := ioutil.ReadFile(path)
+	if err != nil {
+		fmt.Println("ERR", err)
+		return
+	}
+	var log []sim.LogEntry
+	if err := json.Unmarshal(bz, &log); err != nil {
+		fmt.Println("ERR", err)
+		return
+	}
+	idx := getIdx()
+	e := sim.NewEnv(idx)
+	e.NoSnap = true
+	d := &mon.Digest{}
+	e.Monitors = []sim.Monitor{d}
+	e.Replay(dbm.NewMemDB(), log)
+	out, _ := json.Marshal(d.Lines)
+	fmt.Println("DIGEST " + string(out))
+}
+
+// crossProcess re-executes the history in another OS process (other GOMAXPROCS / GC settings) and compares digests.
+func crossProcess(c *Ctx, caseID string, e *sim.Env, own []string) {
+	// only consensus calls matter; read-only calls of the primary are dropped (they must not matter)
+	var log []sim.LogEntry
+	for _, le := range e.Log {
+		switch le.Kind {
+		case "init", "begin", "deliver", "end", "commit":
+			log = append(log, le)
+		}
+	}
+	bz, _ := json.Marshal(log)
+	f := filepath.Join(c.OutDir, fmt.Sprintf("xproc-%d-%s.json", c.Shard, caseID))
+	if ioutil.WriteFile(f, bz, 0644) != nil {
+		return
+	}
+	defer os.Remove(f)
+	self, _ := os.Executable()
+	cmd := exec.Command("timeout", "-s", "KILL", "300", self, "--digest", f)
+	procs := []string{"1", "2", "16"}[len(caseID)%3]
+	cmd.Env = append(os.Environ(), "GOMAXPROCS="+procs, "GOGC="+[]string{"5", "50", "400"}[len(own)%3])
+	outb, err := cmd.Output()
+	var theirs []string
+	for _, line := range strings.Split(string(outb), "\n") {
+		if strings.HasPrefix(line, "DIGEST ") {
+			json.Unmarshal([]byte(line[7:]), &theirs)
+		}
+	}
+	if theirs == nil {
+		c.Res.Inconcl = append(c.Res.Inconcl, fmt.Sprintf("cross-process replay of %s produced no digest (%v)", caseID, err))
+		return
+	}
+	c.Res.count("c01.cross_process_histories", 1)
+	c.Res.count("c01.cross_process_calls_compared", int64(len(own)))
+	n := len(own)
+	if len(theirs) < n {
+		n = len(theirs)
+	}
+	for i := 0; i < n; i++ {
+		if own[i] != theirs[i] {
+			c.Violation("C01", "divergence/cross-process", fmt.Sprintf("a second OS process (GOMAXPROCS=%s) executing the same requests diverges at consensus call %d: %q vs %q", procs, i, own[i], theirs[i]), caseID, histReplay{Profile: "cross-process", Log: e.Log})
+			return
+		}
+	}
+	if len(own) != len(theirs) {
+		c.Violation("C01", "divergence/cross-process-length", fmt.Sprintf("a second OS process produced %d consensus responses, this one %d", len(theirs), len(own)), caseID, histReplay{Profile: "cross-process", Log: e.Log})
 	}
 }
 
@@ -326,7 +410,7 @@ func appRun(prop string, nontrivial []string) func(c *Ctx) {
 				continue
 			}
 			p := profileFor(prop, r, i, c.Quick())
-			ac := appCase{ID: fmt.Sprintf("h%d", i), Seed: r.U64(), Prof: p}
+			ac := appCase{ID: fmt.Sprintf("h%d", i), Seed: r.U64(), Prof: p, CrossProcess: i%4 == 0 && !raceSlice()}
 			if sc, tweak := scenarioFor(prop, i, r); sc != nil {
 				tweak(&ac.Prof)
 				ac.Scenario = sc
@@ -364,7 +448,7 @@ func init() {
 			Assume: []string{appAssume, "consensus MaxGas = -1", "StakeMinimum and the downtime-window parameters are constant within a history"}})
 	}
 	reg("C01", "one case = one generated block history executed on two instances; non-trivial = at least one height compared; distinct by hash of the request log",
-		[]string{"c01.heights_compared"}, map[string]int64{"c01.heights_compared": 500, "c01.twin_restarts": 20}, true)
+		[]string{"c01.heights_compared"}, map[string]int64{"c01.heights_compared": 500, "c01.twin_restarts": 20, "c01.cross_process_histories": 5}, true)
 	reg("C02", "one case = one generated history; non-trivial = it contains a block that mints an award or burns stake, or a DAO burn; distinct by hash of the request log",
 		[]string{"c02.mint_blocks", "c02.burn_blocks", "c02.dao_burns"}, map[string]int64{"c02.mint_blocks": 50, "c02.burn_blocks": 5, "c02.transitions": 5000}, false)
 	reg("C03", "one case = one generated history with hostile transaction variants; non-trivial = at least one tx was accepted and one rejected; distinct by hash of the request log",
